@@ -165,7 +165,7 @@ def run_property(prop, pc, kf, tier, seed, sc, t0):
         # thorough: every harness of the property; quick: as triage of a Verus failure (fast harnesses) or, when part of
         # the property got NO Verus verdict (anchor lost, unsupported construct, lost proof hints), as the fallback that
         # can still produce a sound verdict: a counterexample on the real code
-        kani_results = K.run_for_property(prop, sc.dir, include_slow=(tier == 'thorough' or bool(tool_problems)))
+        kani_results = K.run_for_property(prop, sc.dir, include_slow=(tier == 'thorough' or (bool(tool_problems) and not violations)))
     kani_failed = [k for k in kani_results if k['status'] == 'failed' and not known(kf, prop, {'function': k['name'], 'clause': k['failed_checks'], 'site': ''})]
     if tool_problems and not violations and not kani_failed:
         for t in tool_problems:
